@@ -678,6 +678,29 @@ func checkEmitHandle(c *Ctx, pp string) {
 	handleTop, handleNested := map[string]bool{}, map[string]bool{}
 	nestedDefault := false
 	topFns := map[string]bool{"plan": true, "topLevel": true}
+	// a dispatcher extracted from them: a state method they call with a schema.Change interface value
+	c.AllFuncs(false, func(fi *FuncInfo) {
+		if fi.Pkg.PkgPath != pp || recvName(fi.Decl) != "state" || !(fi.Decl.Name.Name == "plan" || fi.Decl.Name.Name == "topLevel") {
+			return
+		}
+		for _, call := range callsIn(fi.Decl.Body, true) {
+			fn := calleeOf(fi.Info(), call)
+			if fn == nil || fn.Pkg() == nil || fn.Pkg().Path() != pp {
+				continue
+			}
+			sig, _ := fn.Type().(*types.Signature)
+			if sig == nil {
+				continue
+			}
+			for i := 0; i < sig.Params().Len(); i++ {
+				if n := namedOf(sig.Params().At(i).Type()); n != nil && n.Obj().Name() == "Change" && n.Obj().Pkg() != nil && n.Obj().Pkg().Path() == pSchema {
+					if _, isIface := n.Underlying().(*types.Interface); isIface {
+						topFns[fn.Name()] = true
+					}
+				}
+			}
+		}
+	})
 	c.AllFuncs(false, func(fi *FuncInfo) {
 		if fi.Pkg.PkgPath != pp || recvName(fi.Decl) != "state" {
 			return
@@ -814,6 +837,12 @@ func constructionsGuarded(c *Ctx, kind string) bool {
 						hf := calleeOf(info, call)
 						if hf == nil || hf.Pkg() == nil || hf.Pkg().Path() != pSqlx || hf.Name() == "SupportChange" {
 							return true
+						}
+						// helper(…(*schema.K)(nil)…) that reaches SupportChange with its parameter
+						for _, a := range call.Args {
+							if typeIs(info.TypeOf(a), pSchema, kind) && c.mayReach(hf, func(g *types.Func) bool { return g.Name() == "SupportChange" }, 2) {
+								guarded = true
+							}
 						}
 						if cf := c.FuncInfoOf(hf); cf != nil && cf.Decl.Body != nil {
 							hinfo := cf.Info()
